@@ -139,6 +139,9 @@ func (c Commands) MarshalBinary() ([]byte, error) {
 func (c *Commands) UnmarshalBinary(uplink bool, data []byte) error {
 	var i int
 
+	// reset the commands (in case c has been used before)
+	*c = nil
+
 	for i < len(data) {
 		var cmd Command
 		if err := cmd.UnmarshalBinary(uplink, data[i:]); err != nil {
